@@ -159,6 +159,16 @@ pub fn run(p: &[String]) -> Vec<String> {
         "adj_insert" => vec![va::adjustment_insert_coordinate(&u(&p[1]), &u(&p[2]), &u(&p[3])).to_string()],
         "adj_remove" => vec![va::adjustment_remove_coordinate(&u(&p[1]), &u(&p[2]), &u(&p[3])).to_string()],
         "is_remove" => vec![va::is_remove_coordinate(&u(&p[1]), &u(&p[2]), &u(&p[3])).to_string()],
+        "cell_identity" => {
+            // public path through the tokenizer: re-set the coordinate of a formula cell to itself
+            let f = unhex(&p[1]);
+            let mut c = umya_spreadsheet::Cell::default();
+            c.get_coordinate_mut().set_col_num(3);
+            c.get_coordinate_mut().set_row_num(5);
+            c.set_formula(f.trim_start_matches('=').to_string());
+            c.set_coordinate((3u32, 5u32));
+            vec![hex(c.get_formula())]
+        }
         // ---- C09
         "parse_render" => vec![hex(&va::parse_render(&unhex(&p[1])))],
         "parse_tokens" => {
